@@ -425,10 +425,14 @@ impl SubModel {
     }
 }
 
-/// One ordered stream of forwards: the accepted serials and how far delivery has come
-/// (the publisher's own subscription; the subscriber's two streams live in `SubModel`)
+/// One ordered stream of QoS 0 forwards: the accepted serials and how far delivery has come
+/// (the publisher's own subscription and the subscriptions of third parties that only watch,
+/// `Run::watch`; the subscriber's two streams live in `SubModel`)
 #[derive(Default)]
 struct Echo {
+    /// a watcher's filter is f/# or g/#: the first byte of the topics it is owed. `None`: the
+    /// publisher's own subscription on ECHO_TOPIC
+    first: Option<u8>,
     accepted: Vec<usize>,
     delivered: usize,
 }
@@ -442,6 +446,8 @@ pub(super) struct Run<'a> {
     pub sub: Conn,
     model: SubModel,
     echo: Echo,
+    /// subscriptions of watching third parties, in the order of `watch`
+    watchers: Vec<Echo>,
     /// everything published so far (by whomever), by serial
     sent: Vec<Sent>,
     /// serials whose acceptance is not known (their sender's connection ended before the
@@ -523,7 +529,7 @@ impl<'a> Run<'a> {
             let early = publisher.subscribe_wait(1, ECHO_TOPIC, 0, None).await?;
             s_ensure!(early.is_empty(), format!("{}:frame_before_any_publish", p.sig), "publisher read {early:?} before the SUBACK of {ECHO_TOPIC}");
         }
-        Ok(Run { p, stack, stats, publisher, sub, model, echo: Echo::default(), sent: Vec::new(), optional: HashSet::new(), next_msg: 0 })
+        Ok(Run { p, stack, stats, publisher, sub, model, echo: Echo::default(), watchers: Vec::new(), sent: Vec::new(), optional: HashSet::new(), next_msg: 0 })
     }
 
     pub fn all_published(&self) -> bool {
@@ -609,6 +615,27 @@ impl<'a> Run<'a> {
         if self.p.echo && topic == ECHO_TOPIC && !self.echo.accepted.contains(&serial) {
             self.echo.accepted.push(serial);
         }
+        for w in self.watchers.iter_mut().filter(|w| w.first == topic.as_bytes().first().copied()) {
+            w.accepted.push(serial);
+        }
+    }
+
+    /// A third party now holds a QoS 0 subscription on f/# (`first` = b'f') or g/#: it is owed
+    /// everything accepted from now on. The caller reads its stream and hands the forwards to
+    /// `on_watched`. Returns the watcher's index.
+    pub fn watch(&mut self, first: u8) -> usize {
+        self.watchers.push(Echo { first: Some(first), ..Echo::default() });
+        self.watchers.len() - 1
+    }
+
+    /// Something accepted is still owed to watcher `w`
+    pub fn watched_backlog(&self, w: usize) -> bool {
+        let w = &self.watchers[w];
+        w.accepted[w.delivered..].iter().any(|s| !self.optional.contains(s))
+    }
+
+    pub fn on_watched(&mut self, w: usize, p: &md::Publish) -> R<()> {
+        self.on_stream(Some(w), p)
     }
 
     /// A message of a third client, registered with `register`: the broker has confirmed it
@@ -738,30 +765,48 @@ impl<'a> Run<'a> {
     /// A forward on the publisher's own QoS 0 subscription: the accepted ECHO_TOPIC messages in
     /// acceptance order, each once
     fn on_echo(&mut self, p: &md::Publish) -> R<()> {
+        self.on_stream(None, p)?;
+        self.stats.echoed += 1;
+        Ok(())
+    }
+
+    /// A forward on an ordered QoS 0 stream (`None`: the publisher's, `Some(w)`: a watcher's)
+    fn on_stream(&mut self, w: Option<usize>, p: &md::Publish) -> R<()> {
+        let name = if w.is_some() { "watch" } else { "echo" };
         let topic = p.topic.get();
         let body = p.payload.get();
-        s_ensure!(topic == ECHO_TOPIC, self.sig("echo:foreign_topic"), "the publisher, subscribed to {ECHO_TOPIC}, received a forward on {topic:?}");
-        let Some(serial) = serial_of(&body) else {
-            s_fail!(self.sig("echo:payload_unidentifiable"), "forward on {topic:?} with payload {:02x?}", &body[..body.len().min(24)])
+        let stream = match w {
+            None => &self.echo,
+            Some(w) => &self.watchers[w],
         };
-        while self.echo.accepted.get(self.echo.delivered).is_some_and(|s| *s != serial && self.optional.contains(s)) {
-            self.echo.delivered += 1;
+        let fits = match stream.first {
+            None => topic == ECHO_TOPIC,
+            Some(b) => topic.as_bytes().first() == Some(&b),
+        };
+        s_ensure!(fits, self.sig(format_args!("{name}:foreign_topic")), "a forward on {topic:?} on a subscription it does not match");
+        let Some(serial) = serial_of(&body) else {
+            s_fail!(self.sig(format_args!("{name}:payload_unidentifiable")), "forward on {topic:?} with payload {:02x?}", &body[..body.len().min(24)])
+        };
+        let mut at = stream.delivered;
+        while stream.accepted.get(at).is_some_and(|s| *s != serial && self.optional.contains(s)) {
+            at += 1;
         }
-        let at = self.echo.delivered;
-        if self.echo.accepted.get(at) != Some(&serial) {
-            let sig = if self.echo.accepted[..at].contains(&serial) {
-                "echo:duplicate"
-            } else if self.echo.accepted[at..].contains(&serial) {
-                "echo:order"
+        if stream.accepted.get(at) != Some(&serial) {
+            let sig = if stream.accepted[..at].contains(&serial) {
+                "duplicate"
+            } else if stream.accepted[at..].contains(&serial) {
+                "order"
             } else {
-                "echo:not_accepted"
+                "not_accepted"
             };
-            s_fail!(self.sig(sig), "publisher's forward {at} is message {serial}, expected message {:?}", self.echo.accepted.get(at))
+            s_fail!(self.sig(format_args!("{name}:{sig}")), "forward {at} of this subscription is message {serial}, expected message {:?}", stream.accepted.get(at))
         }
-        s_ensure!(body == payload(serial, self.sent[serial].class), self.sig("echo:payload_differs"), "message {serial}: delivered {} bytes", body.len());
-        s_ensure!(p.qos == 0 && p.pkid == 0, self.sig("echo:qos"), "forward on a QoS 0 subscription: {p:?}");
-        self.echo.delivered += 1;
-        self.stats.echoed += 1;
+        s_ensure!(body == payload(serial, self.sent[serial].class), self.sig(format_args!("{name}:payload_differs")), "message {serial}: delivered {} bytes", body.len());
+        s_ensure!(p.qos == 0 && p.pkid == 0, self.sig(format_args!("{name}:qos")), "forward on a QoS 0 subscription: {p:?}");
+        match w {
+            None => self.echo.delivered = at + 1,
+            Some(w) => self.watchers[w].delivered = at + 1,
+        }
         Ok(())
     }
 
